@@ -9,8 +9,12 @@ Emits
     is checked against a reference after alpha-renaming of local variables;
   * the decision of Config.resolved_solver_command as
     `use_solver_command (cmd_nonempty : bool) (cmd_src solver_src : Z) : bool`, plus the shape;
-  * literals of the Parse* codecs (separator, "*", format spec, suffixes, threshold, factor,
-    regexes of ParseArrayLengths, TraceEvent values, default unit of ParseTimeout.parse).
+  * literals of the Parse* codecs (separator, "*", the two renderings of ParseErrorCodes.unparse
+    (bound, prefixes, format specs), the literals of ParseTimeout.unparse (the float("inf")
+    literal, threshold, factor, divisor, the three suffixes), regexes of ParseArrayLengths,
+    TraceEvent values, default unit of ParseTimeout.parse).  The statement shape of every codec
+    method is compared with the shape modelled in Model/ConfigModel.v after alpha-renaming of the
+    bound names (a renamed local is not a change).
 Fail-closed: any other shape raises TranslateError.
 """
 import ast
@@ -277,23 +281,85 @@ def body_src(fn):
 EXPECT_BODIES = {
     # codec bodies whose *structure* is hand-modelled in Model/ConfigModel.v; the literals inside
     # are extracted separately below and replaced by placeholders here
-    ("ParseCSVTraceEvent", "parse"): "try:\n    return [TraceEvent(x) for x in parse_csv(values)]\nexcept ValueError as e:\n    valid = <S0>.join([e.value for e in TraceEvent])\n    raise ValueError(f<F0>) from e",
-    ("ParseCSVTraceEvent", "unparse"): "return <S0>.join([x.value for x in values])",
-    ("ParseCSVInt", "parse"): "return ensure_non_empty([int(x) for x in parse_csv(values)])",
-    ("ParseCSVInt", "unparse"): "return <S0>.join([str(v) for v in values])",
-    ("ParseErrorCodes", "parse"): "values = values.strip()\nif values == <S0>:\n    return set()\nreturn ensure_non_empty(set((int(x, <I0>) for x in parse_csv(values))))",
-    ("ParseErrorCodes", "unparse"): "if not values:\n    return <S0>\nreturn <S1>.join([f<F0> for v in values])",
-    ("ParseTimeout", "parse"): "return parse_time(values, default_unit=<S0>)",
-    ("ParseTimeout", "unparse"): "if value < <I0>:\n    return f<F0>\nreturn f<F1>",
-    ("ParseArrayLengths", "parse"): "if not values:\n    return {}\nvalues = <S0>.join(values.split())\nif not re.match(<S1>, values):\n    raise ValueError(f<F0>)\nmatches = re.findall(<S2>, values)\nreturn {name.strip(): ensure_non_empty([int(x) for x in parse_csv(sizes_lst or single_size)]) for name, sizes_lst, single_size in matches}",
-    ("ParseArrayLengths", "unparse"): "return <S0>.join([f<F0> for k, vs in values.items()])",
+    # (bound names in alpha-normal form: n0 is the parameter, n1.. the locals in order of appearance)
+    ("ParseCSVTraceEvent", "parse"): "try:\n    return [TraceEvent(n1) for n1 in parse_csv(n0)]\nexcept ValueError as n3:\n    n2 = <S0>.join([n3.value for n3 in TraceEvent])\n    raise ValueError(f<F0>) from n3",
+    ("ParseCSVTraceEvent", "unparse"): "return <S0>.join([n1.value for n1 in n0])",
+    ("ParseCSVInt", "parse"): "return ensure_non_empty([int(n1) for n1 in parse_csv(n0)])",
+    ("ParseCSVInt", "unparse"): "return <S0>.join([str(n1) for n1 in n0])",
+    ("ParseErrorCodes", "parse"): "n0 = n0.strip()\nif n0 == <S0>:\n    return set()\nreturn ensure_non_empty(set((int(n1, <I0>) for n1 in parse_csv(n0))))",
+    ("ParseErrorCodes", "unparse"): "if not n0:\n    return <S0>\nreturn <S1>.join([f<F0> if n1 < <I0> else f<F1> for n1 in n0])",
+    ("ParseTimeout", "parse"): "return parse_time(n0, default_unit=<S0>)",
+    ("ParseTimeout", "unparse"): ("if n0 == n0 and abs(n0) != float(<S0>):\n"
+                                  "    if n0 >= <I0> and n0 == int(n0):\n        return f<F0>\n"
+                                  "    n1 = n0 * <I1>\n"
+                                  "    if n1 == int(n1) and n1 / <I2> == n0:\n        return f<F1>\n"
+                                  "return f<F2>"),
+    ("ParseArrayLengths", "parse"): "if not n0:\n    return {}\nn0 = <S0>.join(n0.split())\nif not re.match(<S1>, n0):\n    raise ValueError(f<F0>)\nn1 = re.findall(<S2>, n0)\nreturn {n2.strip(): ensure_non_empty([int(n5) for n5 in parse_csv(n3 or n4)]) for n2, n3, n4 in n1}",
+    ("ParseArrayLengths", "unparse"): "return <S0>.join([f<F0> for n1, n2 in n0.items()])",
 }
 
 
+def bound_names(fn):
+    """names bound inside the function: parameters, assignment / comprehension / walrus targets,
+    exception names"""
+    out = {a.arg for a in fn.args.args}
+    for n in ast.walk(fn):
+        if isinstance(n, ast.Name) and isinstance(n.ctx, ast.Store):
+            out.add(n.id)
+        elif isinstance(n, ast.ExceptHandler) and n.name:
+            out.add(n.name)
+    return out
+
+
+class _Alpha(ast.NodeTransformer):
+    """rename the bound names to n0, n1, ... in order of first appearance (source order)"""
+
+    def __init__(self, bound):
+        self.bound = bound
+        self.map = {}
+
+    def _n(self, name):
+        if name not in self.bound:
+            return name
+        if name not in self.map:
+            self.map[name] = f"n{len(self.map)}"
+        return self.map[name]
+
+    def visit_Name(self, node):
+        return ast.copy_location(ast.Name(id=self._n(node.id), ctx=node.ctx), node)
+
+    def visit_arg(self, node):
+        return ast.copy_location(ast.arg(arg=self._n(node.arg), annotation=None), node)
+
+    def visit_ExceptHandler(self, node):
+        node = self.generic_visit(node)
+        if node.name:
+            node.name = self._n(node.name)
+        return node
+
+    def visit_ListComp(self, node):
+        # the generators bind before the element uses: visit them first so that the numbering
+        # follows binding order
+        node.generators = [self.visit(g) for g in node.generators]
+        node.elt = self.visit(node.elt)
+        return node
+
+    visit_SetComp = visit_GeneratorExp = visit_ListComp
+
+    def visit_DictComp(self, node):
+        node.generators = [self.visit(g) for g in node.generators]
+        node.key = self.visit(node.key)
+        node.value = self.visit(node.value)
+        return node
+
+
 def abstract_literals(fn):
-    """returns (source text of the body with literals replaced by <S0>.. <I0>.. f<F0>.., literals)"""
+    """returns (source text of the body with the bound names alpha-renamed (n0, n1, ...: a renamed
+    local or parameter is not a change of shape) and literals replaced by <S0>.. <I0>.. f<F0>..,
+    literals)"""
     lits = {"S": [], "I": [], "F": []}
     fn = copy.deepcopy(fn)
+    fn = _Alpha(bound_names(fn)).visit(fn)
 
     class A(ast.NodeTransformer):
         def visit_JoinedStr(self, node):
@@ -326,9 +392,12 @@ def fstring_parts(js, what):
                 if not all(isinstance(x, ast.Constant) for x in v.format_spec.values):
                     raise TranslateError(f"{what}: dynamic format spec")
                 spec = "".join(x.value for x in v.format_spec.values)
-            if v.conversion != -1:
-                raise TranslateError(f"{what}: conversion in f-string")
-            out.append(("fmt", ast.unparse(v.value), spec))
+            if v.conversion == -1:
+                out.append(("fmt", ast.unparse(v.value), spec))
+            elif v.conversion == ord("r") and spec == "":
+                out.append(("repr", ast.unparse(v.value), ""))
+            else:
+                raise TranslateError(f"{what}: unsupported conversion in f-string")
         else:
             raise TranslateError(f"{what}: unexpected f-string part")
     return out
@@ -397,34 +466,50 @@ def translate(src_text):
     L.append(f"Definition errcodes_int_base : Z := {ec_p['I'][0]}.")
     L.append(f"Definition errcodes_unparse_any : list Z := {coq_str(ec_u['S'][0])}.")
     L.append(f"Definition errcodes_join : list Z := {coq_str(ec_u['S'][1])}.")
-    parts = fstring_parts(ec_u["F"][0], "ParseErrorCodes.unparse")
-    if not (len(parts) == 2 and parts[0][0] == "lit" and parts[1] == ("fmt", "v", parts[1][2])):
-        raise TranslateError("ParseErrorCodes.unparse: expected f'<prefix>{v:<spec>}'")
-    spec = parts[1][2]
-    if not (len(spec) == 3 and spec[0] == "0" and spec[1].isdigit() and spec[2] in "xX"):
-        raise TranslateError(f"ParseErrorCodes.unparse: unsupported format spec {spec!r}")
-    L.append(f"Definition errcodes_fmt_prefix : list Z := {coq_str(parts[0][1])}.")
-    L.append(f"Definition errcodes_fmt_width : Z := {int(spec[1])}.")
-    L.append(f"Definition errcodes_fmt_upper : bool := {'true' if spec[2] == 'X' else 'false'}.")
+    # [f"<neg prefix>{-v:<spec>}" if v < <I0> else f"<prefix>{v:<spec>}" for v in values]
+    def ec_item(js, want_arg):
+        parts = fstring_parts(js, "ParseErrorCodes.unparse")
+        if not (len(parts) == 2 and parts[0][0] == "lit" and parts[1][0] == "fmt" and parts[1][1] == want_arg):
+            raise TranslateError(f"ParseErrorCodes.unparse: expected f'<prefix>{{{want_arg}:<spec>}}'")
+        spec = parts[1][2]
+        if not (len(spec) == 3 and spec[0] == "0" and spec[1].isdigit() and spec[2] in "xX"):
+            raise TranslateError(f"ParseErrorCodes.unparse: unsupported format spec {spec!r}")
+        return parts[0][1], int(spec[1]), spec[2] == "X"
+
+    npfx, nwidth, nupper = ec_item(ec_u["F"][0], "-n1")
+    ppfx, pwidth, pupper = ec_item(ec_u["F"][1], "n1")
+    L.append(f"Definition errcodes_neg_bound : Z := {ec_u['I'][0]}.   (* the rendering of v is the negative one when v < this *)")
+    L.append(f"Definition errcodes_neg_prefix : list Z := {coq_str(npfx)}.   (* followed by the digits of -v *)")
+    L.append(f"Definition errcodes_neg_width : Z := {nwidth}.")
+    L.append(f"Definition errcodes_neg_upper : bool := {'true' if nupper else 'false'}.")
+    L.append(f"Definition errcodes_fmt_prefix : list Z := {coq_str(ppfx)}.")
+    L.append(f"Definition errcodes_fmt_width : Z := {pwidth}.")
+    L.append(f"Definition errcodes_fmt_upper : bool := {'true' if pupper else 'false'}.")
     to_p = lit[("ParseTimeout", "parse")]
     to_u = lit[("ParseTimeout", "unparse")]
     L.append(f"Definition timeout_default_unit : list Z := {coq_str(to_p['S'][0])}.")
+    # if value == value and abs(value) != float(<S0>):
+    #     if value >= <I0> and value == int(value): return f"{int(value)}<large suffix>"
+    #     ms = value * <I1>
+    #     if ms == int(ms) and ms / <I2> == value: return f"{int(ms)}<small suffix>"
+    # return f"{value!r}<exact suffix>"
+    L.append(f"Definition timeout_unparse_inf_literal : list Z := {coq_str(to_u['S'][0])}.   (* float(<this>) *)")
     L.append(f"Definition timeout_unparse_threshold : Z := {to_u['I'][0]}.")
-    small = fstring_parts(to_u["F"][0], "ParseTimeout.unparse")
-    large = fstring_parts(to_u["F"][1], "ParseTimeout.unparse")
-    # f"{int(value * 1000)}ms"  /  f"{int(value)}s"
-    if not (len(small) == 2 and small[0][0] == "fmt" and small[0][2] == "" and small[1][0] == "lit"):
-        raise TranslateError("ParseTimeout.unparse: unexpected small-value rendering")
-    e = ast.parse(small[0][1], mode="eval").body
-    if not (isinstance(e, ast.Call) and isinstance(e.func, ast.Name) and e.func.id == "int" and len(e.args) == 1
-            and isinstance(e.args[0], ast.BinOp) and isinstance(e.args[0].op, ast.Mult)
-            and isinstance(e.args[0].left, ast.Name) and e.args[0].left.id == "value"):
-        raise TranslateError("ParseTimeout.unparse: expected int(value * <k>)")
-    L.append(f"Definition timeout_unparse_small_factor : Z := {int_const(e.args[0].right, 'ParseTimeout.unparse factor')}.")
-    L.append(f"Definition timeout_unparse_small_suffix : list Z := {coq_str(small[1][1])}.")
-    if not (len(large) == 2 and large[0] == ("fmt", "int(value)", "") and large[1][0] == "lit"):
-        raise TranslateError("ParseTimeout.unparse: unexpected large-value rendering")
+    L.append(f"Definition timeout_unparse_small_factor : Z := {to_u['I'][1]}.")
+    L.append(f"Definition timeout_unparse_small_divisor : Z := {to_u['I'][2]}.")
+    large = fstring_parts(to_u["F"][0], "ParseTimeout.unparse")
+    small = fstring_parts(to_u["F"][1], "ParseTimeout.unparse")
+    exact = fstring_parts(to_u["F"][2], "ParseTimeout.unparse")
+    if not (len(large) == 2 and large[0] == ("fmt", "int(n0)", "") and large[1][0] == "lit"):
+        raise TranslateError("ParseTimeout.unparse: unexpected whole-seconds rendering")
+    if not (len(small) == 2 and small[0] == ("fmt", "int(n1)", "") and small[1][0] == "lit"):
+        raise TranslateError("ParseTimeout.unparse: unexpected whole-milliseconds rendering")
+    # f"{value!r}s"; f"{value}s" is the same string for a float (format(x, "") = str(x) = repr(x))
+    if not (len(exact) == 2 and exact[0] in (("repr", "n0", ""), ("fmt", "n0", "")) and exact[1][0] == "lit"):
+        raise TranslateError("ParseTimeout.unparse: unexpected exact rendering")
     L.append(f"Definition timeout_unparse_large_suffix : list Z := {coq_str(large[1][1])}.")
+    L.append(f"Definition timeout_unparse_small_suffix : list Z := {coq_str(small[1][1])}.")
+    L.append(f"Definition timeout_unparse_exact_suffix : list Z := {coq_str(exact[1][1])}.")
     al_p = lit[("ParseArrayLengths", "parse")]
     al_u = lit[("ParseArrayLengths", "unparse")]
     L.append(f"Definition arrlen_ws_join : list Z := {coq_str(al_p['S'][0])}.")
@@ -433,11 +518,11 @@ def translate(src_text):
     L.append(f"Definition arrlen_join : list Z := {coq_str(al_u['S'][0])}.")
     item = fstring_parts(al_u["F"][0], "ParseArrayLengths.unparse")
     # f"{k}={{{','.join([str(v) for v in vs])}}}"
-    if not (len(item) == 4 and item[0] == ("fmt", "k", "") and item[1][0] == "lit" and item[2][0] == "fmt" and item[3][0] == "lit"):
+    if not (len(item) == 4 and item[0] == ("fmt", "n1", "") and item[1][0] == "lit" and item[2][0] == "fmt" and item[3][0] == "lit"):
         raise TranslateError("ParseArrayLengths.unparse: unexpected item rendering")
     inner = ast.parse(item[2][1], mode="eval").body
     if not (isinstance(inner, ast.Call) and isinstance(inner.func, ast.Attribute) and inner.func.attr == "join"
-            and ast.unparse(inner.args[0]) == "[str(v) for v in vs]"):
+            and ast.unparse(inner.args[0]) == "[str(n3) for n3 in n2]"):
         raise TranslateError("ParseArrayLengths.unparse: unexpected sizes rendering")
     L.append(f"Definition arrlen_item_open : list Z := {coq_str(item[1][1])}.")
     L.append(f"Definition arrlen_item_close : list Z := {coq_str(item[3][1])}.")
